@@ -400,8 +400,8 @@ func appendOp(ops []mapOp, o mapOp) []mapOp {
 // specification of the method (C14.R1).
 func (m *StoreMon) checkSpec(c *eng.Ctx, s storeState, ev *eng.Event) {
 	con := "SharedStore." + m.Method + ":effect-summary"
-	fail := func(msg string) { m.Col.Check("C14.R1", con, false, ev.Pos, msg, pathIf(true, c)) }
-	pass := func() { m.Col.Check("C14.R1", con, true, ev.Pos, "", nil) }
+	fail := func(msg string) { m.Col.Check("C14.R1,C13.R7", con, false, ev.Pos, msg, pathIf(true, c)) }
+	pass := func() { m.Col.Check("C14.R1,C13.R7", con, true, ev.Pos, "", nil) }
 	M := m.mapTerm()
 	params := m.Fn.Params // [recv, ...]
 	param := func(i int) *eng.Term {
